@@ -159,8 +159,11 @@ def _drive_writes(ops, wscript, mw, thr):
             sent = bytes(k.sent)
             assert sent == bytes(expected[:len(sent)]) and len(sent) <= len(expected), \
                 "transport got %r, which is not a prefix of the written data %r" % (sent, bytes(expected))
-            assert s._total_write_done_index == len(sent)
-            assert s._total_write_index == len(expected)
+            assert s._total_write_done_index == len(sent), \
+                "sent-byte index %r != %d bytes handed to the transport" % (s._total_write_done_index, len(sent))
+            assert s._total_write_index == len(expected), \
+                "queued-byte index %r != %d bytes written (accounting must be in bytes)" % (
+                    s._total_write_index, len(expected))
             prev_done = True
             for i, f in enumerate(futs):
                 if f.done():
@@ -177,18 +180,31 @@ def _drive_writes(ops, wscript, mw, thr):
                     "unsent bytes remain but the stream is not waiting for writability"
 
         for kind, size in ops:
-            if kind <= 1:
+            if kind != 2:
                 piece = PAT[off:off + size]
                 pending = len(expected) - len(k.sent)
                 over = mw is not None and size > 0 and pending + size > mw
                 snap = (s._total_write_index, s._total_write_done_index, len(s._write_buffer),
                         len(s._write_futures), len(k.sent), k.wcalls, len(env.v.ready))
-                data = piece if kind == 0 else MV(piece)
+                if kind == 0:
+                    data = piece
+                elif kind == 1:
+                    data = MV(piece)
+                elif kind == 3:
+                    data = MV(piece).cast("H")
+                    assert len(data) * 2 == size
+                else:
+                    data = MV(piece).cast("I")
+                    assert len(data) * 4 == size
                 try:
                     f = s.write(data)
                     raised = None
                 except iostream.StreamBufferFullError as e:
                     raised = e
+                if kind >= 3 and size > 0:
+                    items = size // (2 if kind == 3 else 4)
+                    if over and not (pending + items > mw):
+                        reached("multibyte_refused_items_would_fit")
                 if over:
                     reached("refused")
                     if pending > 0:
@@ -206,6 +222,8 @@ def _drive_writes(ops, wscript, mw, thr):
                     ends.append(len(expected))
                     idx = len(futs)
                     futs.append(f)
+                    if kind >= 3 and len(k.sent) < len(expected):
+                        reached("multibyte_partly_sent")
                     f.add_done_callback(lambda _f, idx=idx: order.append(idx))
             else:
                 if not registered(env, IOLoop.WRITE):
@@ -236,8 +254,13 @@ def _drive_writes(ops, wscript, mw, thr):
         assert not env.v.exc_contexts, "exception escaped a callback: %r" % (env.v.exc_contexts,)
 
 
-# op codes: 0..3 write(bytes of size c) | 4 write(memoryview of size 3) | 5 WRITE-ready event |
-# 6 write(memoryview of size 1) (thorough only: K=7)
+# data kinds of _drive_writes: 0 bytes | 1 memoryview (format "B") | 2 WRITE-ready event |
+# 3 memoryview cast to "H" (itemsize 2) | 4 memoryview cast to "I" (itemsize 4); sizes are always BYTES
+# (for kinds 3 / 4 len(view) = size / itemsize, so any accounting done in items instead of bytes shows).
+#
+# op codes: 0..3 write(bytes of size c) | 4 write(memoryview "B" of 3 bytes) | 5 WRITE-ready event |
+# 6 write("I" view of 4 bytes = 1 item) | 7 write("H" view of 4 bytes = 2 items) | 8 write("H" view of 2 bytes) |
+# 9 write(memoryview "B" of 1 byte)
 def _wdecode(c):
     if c <= 3:
         return 0, c
@@ -245,6 +268,12 @@ def _wdecode(c):
         return 1, 3
     if c == 5:
         return 2, 0
+    if c == 6:
+        return 4, 4
+    if c == 7:
+        return 3, 4
+    if c == 8:
+        return 3, 2
     return 1, 1
 
 
@@ -272,15 +301,15 @@ _W_STUBS = ["FakeFdStream scripted kernel (harness/_iostream_rig.py): write_to_f
 
 @harness(
     pre=pre_write,
-    quick=dict(N=3, W=2, K=6, THR=2, timeout=100),
-    thorough=dict(N=4, W=3, K=7, THR=2, timeout=1500),
-    nshards=dict(quick=36, thorough=49),
-    reach=["resumed_after_partial", "several_resolved"],
+    quick=dict(N=3, W=2, K=7, THR=2, timeout=100),
+    thorough=dict(N=4, W=3, K=8, THR=2, timeout=1500),
+    nshards=dict(quick=49, thorough=64),
+    reach=["resumed_after_partial", "several_resolved", "multibyte_partly_sent"],
     units=_W_UNITS,
     stubs=_W_STUBS + ["_large_buf_threshold shadowed by an instance attribute = 2 (real value 2048; code unchanged)"],
     outside=["more than N operations / W scripted short sends", "writes longer than 3 bytes (see h_write_real_threshold)",
              "max_write_buffer_size (h_write_limit)", "transport errors during write (C13)",
-             "non-contiguous memoryviews", "SSL"],
+             "non-contiguous memoryviews", "memoryview formats other than B / H / I", "SSL"],
 )
 def h_write(ops: List[int], wscript: List[int]):
     """Symbolic history of writes / writability events with symbolic partial sends, no buffer limit."""
@@ -291,7 +320,7 @@ def pre_limit(s1: int, a1: int, ops: List[int], mw: int) -> bool:
     if not (0 <= s1 <= 4 and -1 <= a1 <= 4 and 0 <= mw <= P.M and len(ops) <= P.N):
         return False
     for c in ops:
-        if not 0 <= c <= 5:
+        if not 0 <= c <= 8:
             return False
     return in_shard(s1)
 
@@ -301,7 +330,7 @@ def pre_limit(s1: int, a1: int, ops: List[int], mw: int) -> bool:
     quick=dict(N=1, M=6, THR=2, timeout=100),
     thorough=dict(N=3, M=8, THR=2, timeout=1500),
     nshards=dict(quick=5, thorough=5),
-    reach=["refused", "refused_with_pending"],
+    reach=["refused", "refused_with_pending", "multibyte_refused_items_would_fit", "multibyte_partly_sent"],
     units=_W_UNITS,
     stubs=_W_STUBS + ["_large_buf_threshold shadowed by an instance attribute = 2",
                       "pre-state: one write of s1 bytes of which the transport accepts a1 (symbolic), then N "
